@@ -159,6 +159,13 @@ def build_outputs(outs, on_node=None):
     return b, res
 
 
+def _min_eps(ev):
+    """tolerance floor: eps of the least precise floating dtype among the *results of operations* of the NumPy evaluation
+    (NumPy computes every operation in its result dtype; an input of lower precision does not license computing a float64
+    result in float)"""
+    return ev.eps_computed
+
+
 def reference(outs, valuation, sizes=None):
     """NumPy results per output name + the evaluator (scale / nred / excluded)."""
     inputs = T.make_inputs([t for _, t in outs], valuation, sizes)
@@ -255,12 +262,17 @@ def run_c_program(outs, *, sizes_list=(None,), on_node=None, valuations=None,
                         continue
                 r = ref[name]
                 # value comparison: NumPy's values, in the dtype the expression declares
-                bad = values.compare(g, r, scale=ev.scale, nred=ev.nred, check_dtype=False, min_eps=ev.eps)
+                bad = values.compare(g, r, scale=ev.scale, nred=ev.nred, check_dtype=False, min_eps=_min_eps(ev))
                 if bad is None and g.shape != r.shape:
                     bad = f"shape {g.shape} vs numpy {r.shape}"
                 if bad:
                     sig = {"kind": "wrong-value", "root": _root_sig(t)}
-                    if _fixed_by_c_precedence(bp, kw, name, r, ev):
+                    mixed = c_promotion_narrower(t)
+                    if mixed is not None and values.compare(g, r, scale=ev.scale, nred=ev.nred, check_dtype=False,
+                                                            min_eps=float(np.finfo(np.float32).eps)) is None:
+                        # right to float32 precision, and an operation mixes >=32-bit integers with float32 (NumPy: float64)
+                        sig = {"kind": "wrong-value", "cause": "int-and-float32-operands-evaluated-in-float", **mixed}
+                    elif _fixed_by_c_precedence(bp, kw, name, r, ev):
                         sig = {"kind": "wrong-value", "cause": "loopy-c-printer-precedence"}
                     elif blame and on_node is None and prebuilt is None:
                         sig = blame_wrong_value(t, lambda o: run_c_program(o, sizes_list=sizes_list, blame=False))
@@ -286,7 +298,7 @@ def _fixed_by_c_precedence(bp, kw, name, ref, ev):
         args.update(kw)
         got = ck(**args)[name]
         return values.compare(got, ref, scale=ev.scale, nred=ev.nred, check_dtype=False,
-                              min_eps=ev.eps) is None
+                              min_eps=_min_eps(ev)) is None
     except Exception:  # noqa: BLE001
         return False
 
